@@ -5,6 +5,9 @@ A scenario line (`scn ...`) is a table of cluster names, group names (hex bytes,
     U ci gi v                  storage content of (cluster ci, group gi) becomes version v (0 = group gone)
     Q ci gi showall            one status request, answered before the script goes on
     S ms                       sleep
+    W ms                       the storage subsystem takes nothing off its channel for ms
+    WR ms                      the next storage fetch is taken at once and answered ms later
+    M cap delay                from here on: reply channels of capacity cap (0 = unbuffered), read delay ms after the request
     C k uci ugi uv m (ci gi showall)*m
                                m requests at once from 8 requesters; after the k-th storage fetch of the burst the
                                update (uci, ugi, uv) is applied (k < 0: none)
@@ -113,8 +116,11 @@ def gen_scenario(rng, sid, kind=None):
         steps.append("C %d %d %d %d %d %s" % (k, uc, ug, uv, m, " ".join(rq)))
 
     some_updates(rng.choice([0, 1, 2, 3]))
+    head = steps
     nphase = rng.choice([2, 3]) if kind != "zero" else 2
+    phases, cold = [], [True]          # cold[p]: nothing usable is cached when phase p starts
     for ph in range(nphase):
+        steps = []
         if kind == "conc" and (ph > 0 or rng.random() < 0.5):
             if rng.random() < 0.5:
                 some_requests(rng.choice([1, 2]))
@@ -129,8 +135,42 @@ def gen_scenario(rng, sid, kind=None):
             some_updates(rng.choice([1, 1, 2]))
             if kind == "zero":
                 steps.append("S %d" % rng.choice([150, 300]))
+                cold.append(True)
             else:
-                steps.append("S %d" % rng.choice([LONG, LONG, LONG, 200]))
+                ms = rng.choice([LONG, LONG, LONG, 200])
+                steps.append("S %d" % ms)
+                cold.append(ms == LONG)
+        phases.append(steps)
+
+    # the inputs the evaluator does not control: a storage subsystem that is busy, requesters that are slow or use an
+    # unbuffered reply channel (the HTTP server and the notifier do)
+    cap = 4
+    if rng.random() < 0.35:
+        cap = 0
+        tags.append("unbuffered-reply-channel")
+    if rng.random() < 0.3:
+        # storage takes nothing off its channel for longer than any send timeout in the code base (1 s), at a moment
+        # when the next request must fetch (nothing cached, or everything expired)
+        p = rng.choice([i for i in range(nphase) if cold[i]])
+        phases[p].insert(0, "W %d" % rng.choice([1200, 1300, 1500]))
+        tags.append("storage-stall")
+    if kind == "zero" and rng.random() < 0.4:
+        # storage takes the fetch at once but answers late (no cache in these scenarios: every request fetches)
+        p = rng.randrange(nphase)
+        qi = [i for i, x in enumerate(phases[p]) if x.startswith(("Q ", "C "))]
+        phases[p].insert(qi[0], "WR %d" % rng.choice([1200, 1400]))
+        tags.append("slow-storage-answer")
+    if rng.random() < 0.25:
+        # one requester comes back for its answer 1.3 s after handing the request over
+        p = rng.randrange(nphase)
+        qi = [i for i, x in enumerate(phases[p]) if x.startswith("Q ")]
+        if qi:
+            i = rng.choice(qi)
+            phases[p][i:i + 1] = ["M %d 1300" % cap, phases[p][i], "M %d 0" % cap]
+            tags.append("slow-requester")
+    steps = head + (["M %d 0" % cap] if cap != 4 else [])
+    for ph in phases:
+        steps += ph
     line = "scn %s %d NC %d %s NG %d %s NV %d %s ST %d %s" % (
         sid, lsec, len(cl), " ".join(hx(c) for c in cl), len(gr), " ".join(hx(g) for g in gr),
         nv, " ".join(fmt_content(c) for c in contents), len(steps), " ".join(steps))
@@ -155,6 +195,9 @@ def parse_obs(line):
         elif k == "L":
             evs.append(("L", int(f[i + 1]), f[i + 2], f[i + 3], int(f[i + 4])))
             i += 5
+        elif k == "W":
+            evs.append(("W", int(f[i + 1]), int(f[i + 2])))
+            i += 3
         elif k == "Q":
             evs.append(("Q", int(f[i + 1]), int(f[i + 2]), int(f[i + 3]), int(f[i + 4]), int(f[i + 5])))
             i += 6
